@@ -156,7 +156,7 @@ func runC06(seed uint64, n int, outDir string, replay string) {
 			if err != nil {
 				panic(err)
 			}
-			defer w.node.sl.Stop()
+			defer safeStop(w.node)
 			w.hunt = c == 0 || rc.Chance(50)
 			var reps []*c06Replica
 			ldb, err := rawdb.NewLevelDBDatabase(fmt.Sprintf("%s/l%d", tmp, c), 16, 16, "", false, log.Global, w.node.loc)
@@ -182,7 +182,7 @@ func runC06(seed uint64, n int, outDir string, replay string) {
 			}
 			defer func() {
 				for _, rp := range reps {
-					rp.node.sl.Stop()
+					safeStop(rp.node)
 					rp.node.db.Close()
 				}
 			}()
